@@ -23,6 +23,10 @@ EXCEPTIONS = [
     dict(fn="<multiboot2::memory_map::EFIMemoryAreaIter<'_> as core::iter::traits::iterator::Iterator>::next", kind="overflow", what="Mul",
          leaves={"i", "desc_size"},
          reason="strided lemma (C18 S1,S3): i < entries = len/desc_size, so i*desc_size < len <= isize::MAX; cannot overflow in any profile"),
+    dict(fn="<multiboot2::memory_map::EFIMemoryAreaIter<'_> as core::iter::traits::iterator::Iterator>::next", kind="overflow", what="Add",
+         leaves={"i", "desc_size", "40"},
+         reason="strided lemma with room (C18 S1,S3,S4): i < entries and desc_size >= 40, so i*desc_size + 40 <= (i+1)*desc_size <= entries*desc_size = len "
+                "<= isize::MAX: the end of the descriptor's sub-slice `memory_map[off..off + 40]` cannot overflow in any profile"),
     dict(fn="<multiboot2::network::NetworkTag as multiboot2_common::tag::MaybeDynSized>::dst_len", kind="overflow", what="Sub", leaves={"size", "8"},
          reason="reached only through cast() on an existing DynSizedStructure<TagHeader>, whose creation called TagHeader::payload_len (asserts size >= 8) - "
                 "an undersized tag panics there in every profile before this subtraction runs"),
